@@ -7,7 +7,8 @@
    mutex).  The base store may also be written directly (other users of the same store). *)
 EXTENDS Integers, Sequences, FiniteSets, TLC
 CONSTANTS Buckets, Keys, Vals, MaxOps
-None == 0                     \* absent value (Vals are positive integers)
+None == 0                     \* absent value (Vals are positive integers; the driver maps one of them to the
+                              \* empty byte string, which is a stored value: Has is true, Get returns "")
 VARIABLES base,               \* [Buckets -> [Keys -> Vals \cup {None}]]
           ovl,                \* overlay list: Seq([b, k, v])  v = None is a tombstone
           passthru,           \* TRUE after a committing flush
